@@ -2893,7 +2893,9 @@ class LinearOperator(object):
                 if _is_tensor_index_moved_to_start(orig_indices):
                     res = res.view(*tensor_index_shape, *res.shape[1:])
                 else:
-                    res = res.view(*res.shape[:-1], *tensor_index_shape)
+                    # the broadcast tensor index sits after the slices that precede the first tensor index
+                    k = sum(isinstance(idx, slice) for idx in orig_indices[: [torch.is_tensor(idx) for idx in orig_indices].index(True)])
+                    res = res.view(*res.shape[:k], *tensor_index_shape, *res.shape[k + 1 :])
         else:
             res = self._getitem(row_index, col_index, *batch_indices)
 
